@@ -147,6 +147,43 @@ pub fn generate(rng: &mut Rng, thorough: bool, out: &mut Out) {
         let (q, r) = run_curve2(true, vec![Pt2::new(0.25, -3.0), Pt2::new(1.5, 7.0), Pt2::new(-2.0, 0.1), Pt2::new(9.7, 4.3)], s);
         out.case(q, r);
     }
+    // collapsed control polygons: handles sitting on their knots, repeated points
+    for k in 0..(if thorough { 400 } else { 80 }) {
+        let (a, b, c, d) = (p2(rng), p2(rng), p2(rng), p2(rng));
+        let sg = [3u64, 4, 7, 16][k % 4];
+        let polys: Vec<Vec<Pt2>> = vec![
+            vec![a, a, d, d], vec![a, a, c, d], vec![a, b, d, d], vec![a, d, a, d], vec![a, a, a, d], vec![a, a, a, a],
+            vec![a, b, b, d],
+        ];
+        for pl in polys {
+            let (q, r) = run_curve2(true, pl.clone(), sg);
+            out.case(q, r);
+            let (q, r) = run_curve3(true, pl.iter().map(|p| Pt3::new(p.x, p.y, p.x - p.y)).collect(), sg);
+            out.case(q, r);
+        }
+        for pl in [vec![a, a, d], vec![a, d, d], vec![a, a, a]] {
+            let (q, r) = run_curve2(false, pl.clone(), sg);
+            out.case(q, r);
+            let (q, r) = run_curve3(false, pl.iter().map(|p| Pt3::new(p.x, p.y, p.x + p.y)).collect(), sg);
+            out.case(q, r);
+        }
+        // chain links with zero-length handles and control2 on the end knot
+        let h = Hist2 {
+            first: (a, a, b, b, sg),
+            adds: vec![(0.0, c, c, sg), (0.0, d, d, sg), (1.5, a, a, sg)],
+            close: if k % 2 == 0 { Some((0.0, a, 0.0, sg)) } else { None },
+        };
+        let (q, r) = run_chain2(h);
+        out.case(q, r);
+        let l = |p: Pt2| Pt3::new(p.x, p.y, 1.0);
+        let h = Hist3 {
+            first: (l(a), l(a), l(b), l(b), sg),
+            adds: vec![(0.0, l(c), l(c), sg), (0.0, l(d), l(d), sg)],
+            close: None,
+        };
+        let (q, r) = run_chain3(h);
+        out.case(q, r);
+    }
     let n = if thorough { 20000 } else { 1500 };
     for i in 0..n {
         match i % 7 {
